@@ -42,8 +42,12 @@ Definition regs_at (k : nat) (pl : list ev_plugin) : list (action tk_req string)
 
 Definition ok_handler (ev : Z) (p : plugin) : call string := {| c_res := reply_of ev p; c_dur := 0%N; c_in_write := false |}.
 
+(* plugins that stopped before request k was issued *)
+Definition gone_at (k : nat) (pl : list ev_plugin) : list (action tk_req string) :=
+  flat_map (fun p => if Nat.eqb (ep_gone p) k then [ADisconnect (ep_id p)] else []) pl.
+
 Fixpoint build_actions (k : nat) (sigma : list tk_req) (pl : list ev_plugin) : list (action tk_req string) :=
-  regs_at k pl ++
+  regs_at k pl ++ gone_at k pl ++
   match sigma with
   | [] => []
   | rq :: r => ARequest rq (ok_handler (snd rq)) :: build_actions (S k) r pl
@@ -156,6 +160,40 @@ Definition corr_fault (c : fault_case) : bool :=
 Definition holds_fault (c : fault_case) : bool :=
   fault_ok (fc_plugins c) (fc_faulty c) (fc_ev c) (fc_fault c) (fc_T c) (fc_lat c) (fc_slack c)
            (fc_obs c) (fc_obs2 c) (fc_faulty_after c).
+
+(* ---------- a plugin failing during its synchronisation *)
+
+Record regfail_case := {
+  rc_healthy : list (N * string * string);
+  rc_late : N * string * string;
+  rc_ev : Z;
+  rc_obs : regfail_obs
+}.
+
+Definition mk_tk_plugin (p : N * string * string) : plugin :=
+  {| p_id := fst (fst p); p_idx := snd (fst p); p_name := snd p; p_events := valid_events; p_closed := false |}.
+
+Definition plain_obs_matches (ev : Z) (m : observation tk_req (list string)) (o : fault_obs) : bool :=
+  match o_result m, fo_err o with
+  | inl toks, None => (leqb String.eqb (sort_strs toks) (fo_tokens o) && leqb N.eqb (map p_id (o_invoked m)) (fo_handled o))%bool
+  | _, _ => false
+  end.
+
+(* the model: the failed plugin never becomes part of the list (no ARegister for it); the request, the
+   late registration and the second request are three atomic steps; compared on whatever completed.
+   The late plugin may share no index with the others, so the order of the second request is determined. *)
+Definition corr_regfail (c : regfail_case) : bool :=
+  let ps := sort_plugins (map mk_tk_plugin (rc_healthy c)) in
+  let s := [ARequest (1%N, rc_ev c) (ok_handler (rc_ev c)); ARegister (mk_tk_plugin (rc_late c));
+            ARequest (2%N, rc_ev c) (ok_handler (rc_ev c))] in
+  match snd (tk_run model_T ps s) with
+  | [m1; m2] =>
+      ((negb (rf_done1 (rc_obs c)) || plain_obs_matches (rc_ev c) m1 (rf_obs1 (rc_obs c))) &&
+       (negb (rf_done2 (rc_obs c) && rf_late_registered (rc_obs c)) || plain_obs_matches (rc_ev c) m2 (rf_obs2 (rc_obs c))))%bool
+  | _ => false
+  end.
+
+Definition holds_regfail (c : regfail_case) : bool := regfail_ok (rc_healthy c) (rc_late c) (rc_ev c) (rc_obs c).
 
 (* ================================================================== *)
 (** * updates (C19) *)
